@@ -290,3 +290,23 @@ def iteration_sources(o):
                 if isinstance(v, tuple) and v and v[0] == 'call' and (v[1].endswith('into_iter') or v[1].endswith('::iter')):
                     src.append((e[2], v, ()))
     return src
+
+
+def search_cache_fns(facts):
+    """(probe, store): the functions of the search that look up resp. insert into SearchContext.search_result_cache, whatever they
+    are called and wherever they live (free functions or methods).  None for a role that is not filled by exactly one function."""
+    from sa.facts import field_reads
+    SCX = 'chess::alpha_beta_searcher::SearchContext'
+    users = {}
+    for f, b, fl in field_reads(facts, SCX, 'search_result_cache', kinds=('lib',)):
+        if f.derived or f.kind == 'Closure' or f.impl_trait:
+            continue
+        users.setdefault(f.name, f)
+    probe, store = [], []
+    for name, f in users.items():
+        calls = [facts.callee_name(t) or '' for b, t in f.calls()]
+        if any('HashMap' in c and c.endswith('::insert') for c in calls):
+            store.append(name)
+        elif any('HashMap' in c and (c.endswith('::get') or c.endswith('::contains_key')) for c in calls):
+            probe.append(name)
+    return (probe[0] if len(probe) == 1 else None), (store[0] if len(store) == 1 else None)
